@@ -18,6 +18,8 @@ static int secrets_mode;     /* C14 */
 static int pair_mode;        /* C20 */
 static int func_check = 1;   /* compare with reference */
 static const char *what = "all";
+static const size_t TRLENS[] = { 0, 1, 16, 17, 64, 129, 257, 769, 1025 };   /* single-stepping costs ~40 us per instruction here */
+#define NTRLENS (sizeof TRLENS / sizeof *TRLENS)
 
 #define DATA_MAX (1 << 17)
 static vk_slot s_in, s_out, s_aad, s_iv, s_tag, s_key, s_key2, s_ctx, s_tw;
@@ -246,6 +248,7 @@ static void gcm_sweep(void)
 		w = vk_thorough ? 64 : 17;
 		for (size_t l = 65536 - w; l <= 65536 + (size_t)w; l++) lens[nl++] = l;
 	} else { lens[nl++] = 2048; lens[nl++] = 4097; }
+	if (vk_want_trace) { nl = 0; for (unsigned i = 0; i < NTRLENS; i++) lens[nl++] = TRLENS[i]; }
 	gcm_prepare_keys();
 	if (vk_shard == 0) gcm_pre_scan();
 	vk_fill(gcm_aad, sizeof gcm_aad, 0xaad);
@@ -260,6 +263,7 @@ static void gcm_sweep(void)
 			size_t aad = aads[ai];
 			/* big lengths: a reduced AAD set keeps the slow reference affordable */
 			if (len > 1100 && ai % 3 != (int)(len % 3) && !(vk_thorough && len < 5000)) continue;
+			if (vk_want_trace && ai != (li & 1) * 3) continue;
 			if ((secrets_mode || pair_mode || guard_mode) && !vk_thorough && ai % 3 != (int)(len % 3)) continue;
 			gcm_ref_get(ks, len, aad);
 			for (int f = 0; f < 4; f++) {
@@ -271,6 +275,7 @@ static void gcm_sweep(void)
 						int tl = tags[ti];
 						/* tag length only matters in GCM_COMPLETE: full tag sweep on a residue subset */
 						if (ti != 2 && (len % 16) > 2 && len > 64 && !vk_thorough) continue;
+						if (vk_want_trace && ti != 2) continue;
 						int fl;
 						if (guard_mode) {
 							for (int pl = VK_END; pl <= VK_START; pl++) for (int ip = 0; ip < 2; ip++) {
@@ -291,7 +296,7 @@ static void gcm_sweep(void)
 							gcm_call(f, ks, dec, nt, len, aad, tl, VK_MID, 0, 0, 0, 0x5a5a5a5a5a5a5a5aULL, NULL, NULL, &fl, NULL);
 						} else {
 							int noff = vk_thorough ? 16 : 2;
-							if (nt) noff = 1;
+							if (nt || vk_want_trace) noff = 1;
 							/* offsets: all residues over the sweep (len-dependent), in-place alternating */
 							for (int oi = 0; oi < noff; oi++) {
 								size_t off = vk_thorough ? (size_t)oi : (oi ? 1 + len % 15 : 0);
@@ -406,6 +411,7 @@ static void xts_sweep(void)
 	for (size_t l = 0; l <= maxl; l++) lens[nl++] = l;
 	for (size_t l = 4096 - 40; l <= 4096 + 40; l++) if (!secrets_mode || l % 16 < 2) lens[nl++] = l;
 	if (vk_thorough && !secrets_mode && !pair_mode) { lens[nl++] = 65536; lens[nl++] = 65551; }
+	if (vk_want_trace) { nl = 0; for (unsigned i = 0; i < NTRLENS; i++) lens[nl++] = TRLENS[i]; }
 	vk_fill(xts_k1, 32, 0x7751); vk_fill(xts_k2, 32, 0x7752);
 	vk_fill(xts_tw[0], 16, 0x77aa); memset(xts_tw[1], 0xff, 16); memset(xts_tw[2], 0, 16); xts_tw[2][15] = 0x80;
 	uint8_t *o1 = scratch1, *o2 = scratch2;
@@ -415,6 +421,7 @@ static void xts_sweep(void)
 		if (vk_deadline_hit()) { vk_stat("deadline_skipped_lens", 1); continue; }
 		for (int ks = 0; ks < 2; ks++) for (int tw = 0; tw < 3; tw++) {
 			if (tw && !vk_thorough && (len % 7) != (size_t)tw) continue;
+			if (tw && vk_want_trace) continue;
 			xts_ref_get(ks, tw, len);
 			if (secrets_mode) {
 				sec_reset(); sec_add_key(xts_k1, ks ? 256 : 128); sec_add_key(xts_k2, ks ? 256 : 128);
@@ -441,7 +448,7 @@ static void xts_sweep(void)
 					} else if (secrets_mode) {
 						xts_call(f, ks, dec, ex, tw, len, VK_MID, 0, 0, 0, 0x5a5a5a5a5a5a5a5aULL, NULL, &fl, 0, 0);
 					} else {
-						int noff = vk_thorough ? 16 : 2;
+						int noff = vk_want_trace ? 1 : vk_thorough ? 16 : 2;
 						for (int oi = 0; oi < noff; oi++) {
 							size_t off = vk_thorough ? (size_t)oi : (oi ? 1 + len % 15 : 0);
 							xts_call(f, ks, dec, ex, tw, len, VK_MID, off, (oi + dec) & 1, 0x3c, 0x5a5a5a5a5a5a5a5aULL, o1, &fl, 0, 0);
@@ -533,6 +540,7 @@ static void cbc_sweep(void)
 	for (int n = 1; n <= maxn; n++) lens[nl++] = 16 * n;
 	lens[nl++] = 16 * 255; lens[nl++] = 16 * 256; lens[nl++] = 16 * 257;
 	if (vk_thorough) lens[nl++] = 16 * 4096;
+	if (vk_want_trace) { nl = 0; lens[nl++] = 16; lens[nl++] = 48; lens[nl++] = 16 * 9; lens[nl++] = 16 * 33; }
 	vk_fill(cbc_key, 32, 0xcbc1); vk_fill(cbc_iv, 16, 0xcbc2);
 	uint8_t *o1 = scratch1, *o2 = scratch2;
 	int item = 0;
@@ -560,7 +568,7 @@ static void cbc_sweep(void)
 			} else if (secrets_mode) {
 				cbc_call(dec, f, ks, len, VK_MID, 0, 0, 0, 0x5a5a5a5a5a5a5a5aULL, NULL, &fl, 0);
 			} else {
-				int noff = vk_thorough ? 16 : 3;
+				int noff = vk_want_trace ? 1 : vk_thorough ? 16 : 3;
 				for (int oi = 0; oi < noff; oi++) for (int ip = 0; ip < 2; ip++)
 					cbc_call(dec, f, ks, len, VK_MID, vk_thorough ? (size_t)oi : (size_t)(oi * 7) % 16, ip, 0x3c, 0x5a5a5a5a5a5a5a5aULL, NULL, &fl, 0);
 			}
@@ -573,7 +581,7 @@ static void keyexp_sweep(void)
 {
 	static const int kb[3] = { 128, 192, 256 };
 	static const char *fams[2] = { "sse", "avx" };
-	int nkeys = vk_thorough ? 600 : 120;
+	int nkeys = vk_want_trace ? 2 : vk_thorough ? 600 : 120;
 	if (secrets_mode || pair_mode) nkeys = 24;
 	int item = 0;
 	for (int ki = 0; ki < nkeys; ki++) for (int ks = 0; ks < 3; ks++) for (int f = 0; f < 2; f++) for (int enc_only = 0; enc_only < 2; enc_only++) {
@@ -631,6 +639,7 @@ int main(int argc, char **argv)
 	guard_mode = !strcmp(prop, "C08");
 	secrets_mode = !strcmp(prop, "C14");
 	pair_mode = !strcmp(prop, "C20");
+	if (vk_want_trace) vk_trace_enable();
 	if (secrets_mode) vk_call_mode = VC_POISON_REGS | VC_STACK | VC_CAPVEC;
 	else if (pair_mode) vk_call_mode = VC_POISON_REGS | VC_STACK;
 	else if (!strcmp(prop, "C19")) vk_call_mode = VC_POISON_REGS;
